@@ -26,6 +26,8 @@ type VG struct {
 	ValidUTF8 bool
 	// Budget bounds the total number of containers/elements generated for one value
 	Budget int
+	// NoSNaN: float32 NaNs stay quiet (protobuf-go carries a float32 as a float64, which quiets them)
+	NoSNaN bool
 	// Unique, when set, makes two strings in three never-seen-before values ("u<counter>")
 	Unique *int
 }
@@ -237,7 +239,7 @@ func (g *VG) fill(v reflect.Value, opt string, key bool, depth int) {
 			f32 = 2
 		}
 		v.SetFloat(float64(f32))
-		if f32 != f32 && g.R.IntN(2) == 0 {
+		if f32 != f32 && !g.NoSNaN && g.R.IntN(2) == 0 {
 			// NaNs of every payload, signalling ones included: the bit pattern is what is encoded
 			model.SetF32Bits(v, []uint32{0x7f800001, 0xff800001, 0x7fbfffff, 0x7fc00001, 0xffc12345, 0x7f812345}[g.R.IntN(6)])
 		}
